@@ -1201,9 +1201,9 @@ class Index:
             # Filter out extensions with no meaningful data
             meaningful_extensions = []
             for ext in self._extensions:
-                # Skip extensions that have empty data
-                ext_data = ext.to_bytes()
-                if ext_data:
+                # Tree cache and resolve-undo (de)serialisation is not
+                # implemented: drop those rather than write empty ones.
+                if not isinstance(ext, (TreeExtension, ResolveUndoExtension)):
                     meaningful_extensions.append(ext)
 
             if self._skip_hash:
